@@ -220,7 +220,7 @@ struct LenpHarness : Harness {
                 if (n > (uint64_t)SSIZE_MAX) { if (!fin || rc != -EINVAL || !snk.got.empty()) F("refuse", "length above SSIZE_MAX not refused (rc %zd)", rc); return; }
                 check_sink(rc, fin, n == (uint64_t)len ? m.unread() : Bytes(), n);
             } else {
-                LengthPrefixBuffer lpb; memset(&lpb, 0, sizeof lpb);
+                LengthPrefixBuffer lpb; memset(&lpb, 0xa5, sizeof lpb);   /* a dirty object: nothing may depend on earlier content */
                 int rc = flenp_memory_encode(K, &lpb, ptr, (size_t)n);
                 c.ev(EV_API, 2, (uint64_t)rc, lpb.prefix.used);
                 if (n > (uint64_t)SSIZE_MAX) { if (rc != -EINVAL) F("refuse", "length above SSIZE_MAX not refused (rc %d)", rc); return; }
@@ -263,7 +263,7 @@ struct LenpHarness : Harness {
                 c.ev(EV_API, 4, (uint64_t)rc, snk.got.size());
                 check_sink(rc, fin, designated, designated.size());
             } else {
-                LengthPrefixBuffer lpb; memset(&lpb, 0, sizeof lpb);
+                LengthPrefixBuffer lpb; memset(&lpb, 0xa5, sizeof lpb);   /* a dirty object: nothing may depend on earlier content */
                 int rc = with_n ? flenp_buffer_encode_n(K, &lpb, &B.b, n) : flenp_buffer_encode(K, &lpb, &B.b);
                 c.ev(EV_API, 5, (uint64_t)rc, lpb.prefix.used);
                 if (check_prefix_obj(rc, lpb.prefix, lpb.prefix_, designated.size())) {
@@ -298,7 +298,7 @@ struct LenpHarness : Harness {
                 c.ev(EV_API, 6, (uint64_t)rc, snk.got.size());
                 check_sink(rc, fin, designated, designated.size());
             } else {
-                LengthPrefixChunks lpc; memset(&lpc, 0, sizeof lpc);
+                LengthPrefixChunks lpc; memset(&lpc, 0xa5, sizeof lpc);
                 lpc.payload.chunks = nch; lpc.payload.active = (size_t)act; lpc.payload.chunk = arr.data();
                 int rc = flenp_chunks_use(K, &lpc);
                 c.ev(EV_API, 7, (uint64_t)rc, lpc.prefix.used);
